@@ -543,11 +543,29 @@ def eval_bool(e, assign, canon):
         return False
     c = canon(e)
     if c is None:
+        if e[0] == "bin" and e[1] in ("Eq", "Ne"):
+            a = eval_bool(e[2], assign, canon)
+            b = eval_bool(e[3], assign, canon)
+            if a is None or b is None:
+                return None
+            return (a == b) if e[1] == "Eq" else (a != b)
         return None
     name, pol = c
     if name in assign:
         return assign[name] == pol
     return None
+
+
+def consistent_with(other_conds, assign, canon):
+    """False when some condition of the path that is a boolean combination of known atoms
+    (e.g. `exclude == listed`) evaluates differently under `assign`."""
+    for atom, v in other_conds:
+        if v not in (0, 1, True, False):
+            continue
+        got = eval_bool(atom, assign, canon)
+        if got is not None and got != bool(v):
+            return False
+    return True
 
 
 def path_assignment(path, canon, strict=None):
